@@ -9,7 +9,8 @@ MODULE = "NrDaemon.Props.C06"
 RULE = ("op sequences for the engines res/err/tr/slow (real analyticsEvents, ErrorHeap, TxnTraceHeap, SlowSQLs): random "
         "capacities 0..20, priority alphabets of 2..10^6 values (ties), carried-over reservoirs merged after 0..11 failed "
         "attempts; thorough additionally enumerates every offer order over 3 priorities up to length 6. A sequence is "
-        "non-trivial when at least one offer was refused or displaced an entry (result size did not grow); distinct = distinct op lists.")
+        "non-trivial when at least one offer was refused or displaced an entry (result size did not grow); distinct = distinct op lists."
+        " Batch proc: traces of the three kinds (and traces that are both synthetics and force-persisted), more than each pool holds, through AggregateInto on the real Processor, with a Spec on every trace payload.")
 ASSUMPTIONS = ["priorities are exact integers (fixed point); float rounding and NaN priorities are not modelled",
                "slow-SQL counters do not overflow int32/uint64"]
 EXPLANATION = ("Theorems about the Lean transcription of container/heap and of the four containers; exact array equality "
